@@ -5,6 +5,7 @@ import (
 
 	"github.com/orbs-network/lean-helix-go/services/interfaces"
 	"github.com/orbs-network/lean-helix-go/spec/types/go/primitives"
+	"github.com/orbs-network/lean-helix-go/state"
 	env "github.com/orbs-network/lean-helix-go/zzverifenv"
 	stub "github.com/orbs-network/lean-helix-go/zzverifstub"
 )
@@ -13,6 +14,7 @@ func init() {
 	env.Register("C12_FullQueue", C12_FullQueue)
 	env.Register("C12_Bytes", C12_Bytes)
 	env.Register("C12_Mutate", C12_Mutate)
+	env.Register("C12_MutateFuture", C12_MutateFuture)
 }
 
 // C12_Mutate: a genuine message of the given kind (PREPREPARE, PREPARE, COMMIT, VIEW_CHANGE with proof,
@@ -168,4 +170,79 @@ func C12_FullQueue() {
 	env.Assert("C12.main.takes_every_event", env.ChanPending(n.m.mainUpdateStateChannel) == 0)
 	env.Assert("C12.main.takes_every_event", env.ChanBuffered(n.m.worker.workerUpdateStateChannel) == 1)
 	env.Reach("C12.fullqueue.done")
+}
+
+// C12_MutateFuture: the same structured mutation applied to a genuine message of the NEXT height while the node
+// is at height 1: a parseable message is put into the future cache by the worker's message handler. The node
+// is then synced to height 2 the way WorkerLoop.Run does it (handleUpdateState, no recover of its own) and the
+// cached message reaches the handlers of the new term. No panic may escape to the supervising loop, and a
+// complete honest round of height 2 must still commit.
+func C12_MutateFuture() {
+	kind := env.Param("kind")
+	const me = 1
+	wd := newWorld(me, equalWeights(4))
+	n := wd.n
+	n.commitErr = false
+	b1 := &stub.Block{H: 1, Tag: 0x21, ProposalOK: true}
+	// the peers of height 2 derive their seed from the (empty) proof handed over by the sync
+	net2 := newVNet(wd.reg, wd.net.committee, vInstance, nil)
+	blk := &stub.Block{H: 2, Tag: 0x23, ProposalOK: true}
+	var msg interfaces.ConsensusMessage
+	switch kind {
+	case 0:
+		msg = net2.ppm(0, 2, 0, blk)
+	case 1:
+		msg = net2.pm(2, 2, 0, stub.HashOf(blk))
+	case 2:
+		msg = net2.cm(2, 2, 0, stub.HashOf(blk))
+	case 3:
+		msg = net2.vcm(2, 2, 1, net2.prepared(2, 0, blk, []int{2, 3}))
+	case 4:
+		votes := []*interfaces.ViewChangeMessage{net2.vcm(0, 2, 2, net2.prepared(2, 0, blk, []int{1, 3})), net2.vcm(2, 2, 2, nil), net2.vcm(3, 2, 2, nil)}
+		msg = net2.nvm(2, 2, 2, votes, blk)
+	}
+	raw := msg.ToConsensusRawMessage()
+	content := make([]byte, len(raw.Content))
+	copy(content, raw.Content)
+	w := env.Choice("window", len(content)/4)
+	for i := 0; i < 4; i++ {
+		content[4*w+i] = env.NondetU8("w")
+	}
+	mut := &interfaces.ConsensusRawMessage{Content: content, Block: raw.Block}
+	p := 0
+	if !env.Bounded(func() { p = env.Catch(func() { n.m.worker.handleRawMessage(mut) }) }) {
+		env.Assert("C12.bounded_work", false)
+		return
+	}
+	env.Assert("C12.worker.no_panic", p == 0)
+	// node sync to height 2, exactly what WorkerLoop.Run does with an UpdateState
+	hv := state.NewHeightView(2, 0)
+	n.m.state.Contexts.CancelOlderThan(hv)
+	p2 := 0
+	if !env.Bounded(func() { p2 = env.Catch(func() { n.m.worker.handleUpdateState(&blockWithProof{block: b1}) }) }) {
+		env.Assert("C12.bounded_work", false)
+		return
+	}
+	env.Assert("C12.worker.sync_no_panic", p2 == 0)
+	if p2 != 0 {
+		return
+	}
+	env.Assert("C12.future.height2", n.m.state.Height() == 2)
+	env.Reach("C12.future.synced")
+	if kind == 3 || kind == 4 || n.m.state.View() != 0 {
+		return
+	}
+	if _, has := n.st.GetPreprepareMessage(2, 0); !has {
+		n.deliver(net2.ppm(0, 2, 0, blk).ToConsensusRawMessage())
+	}
+	for i := 2; i < 4; i++ {
+		n.deliver(net2.pm(i, 2, 0, stub.HashOf(blk)).ToConsensusRawMessage())
+	}
+	for i := 0; i < 4; i++ {
+		if i != me {
+			n.deliver(net2.cm(i, 2, 0, stub.HashOf(blk)).ToConsensusRawMessage())
+		}
+	}
+	env.Assert("C12.followup_commits", len(n.commits) == 1)
+	env.Reach("C12.future.followup")
 }
